@@ -2,33 +2,49 @@
 import json
 import os
 import random
+import sys
+import time
 from vf import Inconclusive, parallel, require_clean, validate_traces, trace_slice, vfj_lines, b2s
 
 CLAIM = {
-    "text": "Rare.tla specifies one run of an aggregating command (match/ignore/extract -> NUL-joined element -> "
-            "Sample of the command's aggregator -> CSV records, summary counts, exit status/message) as a sequential "
-            "reference fold; Rare_MC.tla models the concurrent pipeline (R readers cutting batches incl. timer flush, "
-            "bounded channels, W workers, one aggregation step) and TLC shows over ALL interleavings that the final "
-            "aggregate and counters equal the reference fold for every order-free command (histogram, table/heatmap/"
-            "spark, bargraph, analyze, reduce with sum/count/max) for any R/W/B/capacity, and for an order-sensitive "
-            "accumulator when R=W=1 (with R or W = 2 TLC finds the counter-example, so the check is not vacuous); "
-            "CsvDec.tla is an RFC 4180 decoder for which TLC checks Decode(Encode(r)) = r for all small record sets and "
-            "three quoting styles. The REAL rare binary is then run on TLC's exhaustive small family of corpora and on "
-            "seeded large corpora (keys with commas, quotes, spaces, UTF-8, leading '='), as plain/gzip files and stdin, "
-            "re-divided among 1..5 files in permuted order, under --workers/--batch/--batch-buffer/--readers/"
-            "GOMAXPROCS matrices; TLC decodes every CSV export and requires records = CSV of the reference aggregate, "
-            "exit status/message = ExitState, summary-line counts = model counts, analyze statistics = model order "
-            "statistics, and identical snapshot text for all runs of a corpus.",
-    "note": "Bounded: B3 corpora of 5-6 lines, R,W,B<=2, channel capacity<=2; small family = all sequences of <=3(4) "
-            "lines over an 8-line pool x 13 command descriptors; large corpora are seeded samples. Match/extract/ignore "
-            "expressions are a fixed family (3-field split, {n} extraction, {eq} ignore, sumi/maxi accumulators). "
-            "Trusted: Go regexp, gzip, the expression VM on this family, TLC. analyze is compared on the integer domain; "
-            "its StdDev only across runs (+-2e-4). The batcher status footer is masked.",
-    "technique": "TLA+ model checking of the pipeline (TLC, all interleavings) + TLC-generated corpora replayed on the "
-                 "real binary + trace validation of CLI runs (CSV decoded by TLC)",
+    "text": "Rare.tla specifies one run of an aggregating command (match - regex, named regex or dissect - / ignore / extract "
+            "atoms {n} {line} {src} {.} {#} {.#} -> element joined with NUL or with the --delim text -> Sample of the command's "
+            "aggregator, which takes the element apart on the WHOLE delimiter -> CSV records, summary counts, exit status/message) "
+            "as a sequential reference fold over the sources of the run in reading order (a layout; a command without {line}/{src} "
+            "has the same reference for every layout - law LayoutFree). Rare_MC.tla models the concurrent pipeline (R readers "
+            "cutting batches incl. timer flush, bounded channels, W workers, one aggregation step) and TLC shows over ALL "
+            "interleavings that the final aggregate and counters equal the reference fold for every order-free command for any "
+            "R/W/B/capacity, and for an order-sensitive accumulator when R=W=1 (with W=2 TLC finds the counter-example). "
+            "RareWorker_MC.tla adds the state that outlives a line (line counter of a source, matcher instance of a worker, memo of "
+            "a worker's context): the designs of the code hold, a matcher shared by the workers, a memo keyed by the line number "
+            "alone and a counter advancing by the batch size are each refuted. RareScreen_MC.tla models the aggregation loop with "
+            "its ticker and the accessors behind renders and exports: for ANY pacing of input and ticks the last render and the "
+            "export show the reference aggregate and the counts of the whole input; a 'render only if updated' flag set outside "
+            "the mutex and an accessor cache dropped only for new keys are refuted. RareText_MC.tla: dissect captures = Dissect.tla, "
+            "the splitter cursor refines the split on the whole delimiter (advancing one byte is refuted), the CSV of table/"
+            "heatmap/spark is the same for NUL, ';', '::', ' - ' and U+2192. CsvDec.tla is an RFC 4180 decoder with "
+            "Decode(Encode(r)) = r for all small record sets. The REAL rare binary is then run on TLC's family of small corpora x "
+            "32 command descriptors and on seeded families (large corpora with awkward keys; fixed-width lines ending on the read "
+            "buffer ends; dissect corpora executed several times with all workers busy - a sample of OS schedules; stdin fed in "
+            "bursts separated by pauses longer than the render tick and the batch auto-flush interval), as plain/gzip files and "
+            "stdin, re-divided among files in permuted order, several sources through one worker, under --workers/--batch/"
+            "--batch-buffer/--readers/GOMAXPROCS matrices; TLC decodes every CSV export and requires records = CSV of the "
+            "reference aggregate of the run's layout, exit status/message = ExitState, summary-line counts = model counts, "
+            "analyze statistics = model order statistics, and identical snapshot text for all runs of a corpus and layout.",
+    "note": "Bounded: B3 corpora of 3-6 lines, R,W<=2(3), B<=2(3), channel capacity<=2, <=3(4) ticks; small family = sequences of "
+            "<=3(4) lines over an 8-line pool x 32 command descriptors (quick: one residue class mod 4, chosen by the seed); large "
+            "corpora, schedules and pacings are seeded samples - a schedule- or timing-dependent fault is found only when one of "
+            "the sampled executions exhibits it. Match/extract/ignore expressions are a fixed family (3-field split by regex / "
+            "named regex / dissect, the atoms above, {eq} ignore, sumi/maxi accumulators). Trusted: Go regexp, gzip, the "
+            "expression VM on this family, TLC. analyze is compared on the integer domain; its StdDev only across runs (+-2e-4). "
+            "The batcher status footer is masked.",
+    "technique": "TLA+ model checking of the pipeline, the worker state and the render loop (TLC, all interleavings, refuted "
+                 "negative controls) + TLC-generated corpora replayed on the real binary + trace validation of CLI runs "
+                 "(CSV decoded by TLC, expectation per layout)",
 }
 
 MC_INVS = "FinalAgg FinalCounts SeqOrder NoInvention"
+
 
 
 def mc_cfg(r, w, b, cap, corpus, cmd, live=True):
@@ -42,11 +58,31 @@ CSV_CFG = "INIT CInit\nNEXT CNext\nCONSTANTS Mode = \"%s\"\n MaxF = %d\nINVARIAN
 
 def check(run):
     quick = run.tier == "quick"
+    t0 = time.time()
+
+    def stage(name):
+        if os.environ.get("C03_TIMING"):
+            print("c03 stage %-12s at %.1fs" % (name, time.time() - t0), file=sys.stderr)
+    if os.environ.get("C03_TIMING"):
+        orig_tlc = run.tlc
+
+        def timed_tlc(*a, **k):
+            t1 = time.time()
+            r_ = orig_tlc(*a, **k)
+            print("c03 tlc %-60s %5.1fs (started at %.1fs)" % (k.get("label", a[0])[:60], time.time() - t1, t1 - t0), file=sys.stderr)
+            return r_
+        run.tlc = timed_tlc
     rare = run.build_cli()
     run.build_harness()
     run.assumptions += [
-        "expression family: -m '^([^|]*)\\|([^|]*)\\|([^|]*)$', -e '{n}', -i '{eq {n} word}', reduce accumulators "
-        "sumi/maxi/{3}; keys are NUL-, CR-, LF- and '|'-free valid UTF-8",
+        "expression family: -m '^([^|]*)\\|([^|]*)\\|([^|]*)$' (also with groups named k s v) or -d '%{k}|%{s}|%{v}', "
+        "-e atoms {n}/{name} {line} {src} {.} {#} {.#}, --delim ';' '::' ' - ' U+2192 with one -e joining the atoms, "
+        "-i '{eq {n} word}', reduce accumulators sumi/maxi/{3}; keys are NUL-, CR-, LF- and '|'-free valid UTF-8",
+        "{src} is the file argument as given (the runs use names relative to their working directory) or <stdin>; a command "
+        "using {line}/{src} is compared with the reference aggregate of the layout of each run, its snapshot text only "
+        "between runs of equal layout; analyze with {line}/{src} is outside the domain",
+        "pacing of stdin (bursts, pauses of 230-480 ms) and repeated executions only select schedules: the expectation never "
+        "depends on them",
         "snapshot comparison masks the last line (batcher status: bytes read, rate, active files)",
         "analyze: integer samples (|v| <= 10^4); mean within 1e-4; quantile index floor(n*p), either neighbour "
         "when n*p is integral; StdDev compared across runs only",
@@ -55,6 +91,90 @@ def check(run):
         "CR LF corpora: the line handed to the matcher is the text before CR LF (scanner contract, C04); the spec "
         "aggregates the lines without their terminators",
     ]
+    # ------------------------------------------------------------------ B1 + B2 machinery: real binary
+    def family(name, dpath):
+        """runs the descriptors of dpath on the real binary under their variants, validates every run with Rare_Trace"""
+        tr = os.path.join(run.scratch, "c03-trace-%s.ndjson" % name)
+        res_path = os.path.join(run.scratch, "c03-result-%s.json" % name)
+        run.drv(["run", "-rare", rare, "-in", dpath, "-out", tr, "-res", res_path, "-work", os.path.join(run.scratch, "c03-work-" + name),
+                 "-variants", 2 if quick else 4, "-variants-big", 4 if quick else 8,
+                 "-variants-geom", 6 if quick else 10, "-par", 8], timeout=3000)
+        stage(name + "-runs")
+        vres = validate_split(tr, name, 1 if quick else 4)
+        stage(name + "-trace")
+        return {"name": name, "tr": tr, "res": json.load(open(res_path)), "vres": vres}
+
+    def validate_split(tr, name, k):
+        """Rare_Trace is a sequential machine per reset group: large traces are cut at reset records into k parts of about
+        equal size that are validated side by side; the results are merged (line numbers refer to the whole trace)"""
+        if k <= 1:
+            return validate_traces(run, "Rare_Trace", tr, xmx="8g", timeout=3000, label="Rare_Trace (%s family)" % name)[0]
+        lines = open(tr).read().splitlines(True)
+        starts = [i for i, ln in enumerate(lines) if '"event":"reset"' in ln[:400]]
+        total = sum(len(ln) for ln in lines)
+        cuts, acc, goal = [0], 0, total / k
+        for a, b in zip(starts, starts[1:] + [len(lines)]):
+            acc += sum(len(ln) for ln in lines[a:b])
+            if acc >= goal * len(cuts) and b < len(lines) and len(cuts) < k:
+                cuts.append(b)
+        cuts.append(len(lines))
+        parts = []
+        for j in range(len(cuts) - 1):
+            pth = "%s.part%d" % (tr, j)
+            with open(pth, "w") as f:
+                f.writelines(lines[cuts[j]:cuts[j + 1]])
+            parts.append((cuts[j], pth))
+        outs = parallel([lambda off=off, pth=pth, j=j: (off, validate_traces(
+            run, "Rare_Trace", pth, xmx="6g", timeout=3000, label="Rare_Trace (%s family, part %d)" % (name, j))[0])
+            for j, (off, pth) in enumerate(parts)], 4)
+        merged = {"bad": [], "consumed": 0, "done": True}
+        for off, v in outs:
+            merged["consumed"] += v["consumed"]
+            merged["bad"] += [dict(b, l=b["l"] + off) for b in v["bad"]]
+        return merged
+
+    def seeded_family():
+        big = os.path.join(run.scratch, "c03-big.ndjson")
+        run.drv(["gen", "-out", big, "-geom", 3 if quick else 24, "-n", 12 if quick else 44, "-min", 800 if quick else 2000,
+                 "-max", 5000 if quick else 100000, "-sched", 2 if quick else 4, "-sched-runs", 4 if quick else 8,
+                 "-paced", 9 if quick else 36, "-paced-runs", 3 if quick else 6])
+        return family("seeded", big)
+
+    def report(fam):
+        res, vres, tr = fam["res"], fam["vres"], fam["tr"]
+        run.cov["traces_validated_against_impl"] += res["runs"]
+        run.cov["evaluations"] += res["runs"] + res["b1_compared"]
+        run.cov["b1_compared"] = run.cov.get("b1_compared", 0) + res["b1_compared"]
+        run.cov["cli_runs"] = run.cov.get("cli_runs", 0) + res["runs"]
+        run.cov["corpora"] = run.cov.get("corpora", 0) + res["groups"]
+        for s_ in res["samples"][:2]:
+            run.sample({"cli_run": s_})
+        for m in res["b1_mismatches"]:
+            cls = m["why"].split(":")[0]
+            run.violation("b1:%s:%s" % (m["cmd"], cls),
+                          "rare %s: %s (TLC-enumerated corpus %d)" % (" ".join(m["argv"][:14]), m["why"], m["t"]), m)
+        run.cov["b2_events"] = run.cov.get("b2_events", 0) + vres["consumed"]
+        lines = open(tr).read().splitlines()
+        run.cov["distinct_nontrivial"] += res["groups"]
+        if vres["consumed"] != len(lines):
+            raise Inconclusive("trace not consumed: %d of %d" % (vres["consumed"], len(lines)))
+        for bad in vres["bad"]:
+            ev = json.loads(lines[bad["l"] - 1])
+            why = bad["why"]
+            if why in ("spec-selfcheck", "harness-layout"):
+                raise Inconclusive("trace %d line %d: %s" % (bad["t"], bad["l"], why))
+            sl = trace_slice(tr, bad["t"]).splitlines()
+            reset = json.loads(sl[0])
+            # keep the replay small: the reset line + the rejected run
+            path = run.save_replay("trace-%s-%d-%d.ndjson" % (fam["name"], bad["t"], bad["l"]),
+                                   sl[0][:200000] + "\n" + lines[bad["l"] - 1] + "\n")
+            out = bytes(ev["stdout"][:400]).decode("utf8", "replace")
+            pace = (" stdin paced %s" % ev["pace"]) if ev.get("pace") else ""
+            run.violation("b2:%s:%s" % (reset["cmd"], why),
+                          "rare %s (GOMAXPROCS=%s%s) exit=%s msg=%s is not a behaviour of Rare.tla: %s; stdout starts %r" % (
+                              " ".join(a if len(a) < 60 else a[:57] + "..." for a in ev["argv"]), ev.get("gomaxprocs"), pace,
+                              ev["exit"], ev["msg"], why, out[:300]), path)
+
     # ------------------------------------------------------------------ B3: interleavings
     jobs = []
     order_free = (1, 2, 3, 4, 5, 6)
@@ -78,15 +198,53 @@ def check(run):
                                         label="CsvDec round trip")))
     jobs.append(lambda: ("csv", run.tlc("RareCsv_MC", CSV_CFG % ("bytes", 6 if quick else 8, "Canonical QuoteParity"),
                                         workers=2, timeout=1500, label="CsvDec all byte strings")))
-    # B1 generator runs concurrently with B3
+    # ---- one run per module over a SET of scenarios: the designs of the code and admissible alternatives must hold,
+    # the seeded designs (negative controls) must be refuted: TLC -continue reports their Refuted_* invariants.
+    scen = "ScQuick" if quick else "ScThorough"
+    merged = [
+        # what a worker owns: line counters of the sources, matcher instance, context memo
+        ("RareWorker_MC", "SPECIFICATION Spec\nCONSTANTS Scenarios <- %s\nINVARIANTS FinalAgg FinalCounts StartsExact %%s\n"
+                          "PROPERTIES Terminates\nCHECK_DEADLOCK FALSE\n" % scen,
+         ["Refuted_shared", "Refuted_memoline", "Refuted_numbering"]),
+        # what is on the screen / in the export when the run ends, for any pacing of input and ticks
+        ("RareScreen_MC", "SPECIFICATION Spec\nCONSTANTS Scenarios <- %s\nINVARIANTS FinalScreen FinalCsv ScreenSound AggSound %%s\n"
+                          "PROPERTIES Terminates\nCHECK_DEADLOCK FALSE\n" % scen,
+         ["Refuted_flag", "Refuted_flagquiet", "Refuted_cachekeys_screen", "Refuted_cachekeys_csv"]),
+        # text-level laws: dissect captures, splitter cursor, --delim invariance, layout independence
+        ("RareText_MC", "INIT CInit\nNEXT CNext\nCONSTANTS MaxN = %d\nINVARIANTS DissectAgree SplitterRefines OneByteBlind "
+                        "DelimInvariant LayoutFree %%s\nCHECK_DEADLOCK FALSE\n" % (5 if quick else 7),
+         ["Refuted_adv1", "Refuted_layoutblind"]),
+    ]
+    for mod, cfg, negs in merged:
+        jobs.append(lambda mod=mod, cfg=cfg, negs=negs: (
+            ("merged", mod, negs), run.tlc(mod, cfg % " ".join(negs), workers=1 if quick else 3, timeout=3000, extra=("-continue",),
+                                          label="%s (scenario set, negative controls %s)" % (mod, ",".join(negs)))))
+    # B1 generator runs concurrently with B3 (the longest job: first)
     maxlen = 3 if quick else 4
-    gen_cfg = "INIT GInit\nNEXT GNext\nCONSTANTS MaxLen = %d\nINVARIANTS Dump\nCHECK_DEADLOCK FALSE\n" % maxlen
-    jobs.append(lambda: ("gen", run.tlc("Rare_Gen", gen_cfg, workers=2, timeout=2400, label="Rare_Gen MaxLen=%d" % maxlen)))
+    # a residue class (chosen by the seed) of the family: quick 1 of 4, thorough 1 of 2 - a sample of it is executed anyway
+    stride = 4 if quick else 2
+    gen_cfg = ("INIT GInit\nNEXT GNext\nCONSTANTS MaxLen = %d\n Stride = %d\n Pick = %d\nINVARIANTS Dump\nCHECK_DEADLOCK FALSE\n"
+               % (maxlen, stride, run.seed % stride))
+    jobs.insert(0, lambda: ("gen", run.tlc("Rare_Gen", gen_cfg, workers=2, timeout=2400, label="Rare_Gen MaxLen=%d" % maxlen)))
+    # the seeded families (large / read-buffer geometry / schedule samples / paced stdin) do not depend on the
+    # generator: they are executed and validated while the model checks run
+    jobs.insert(1, lambda: ("seeded", seeded_family()))
     gen = None
+    fam_seeded = []
     for tag, r in parallel(jobs, 5):
+        if tag == "seeded":
+            fam_seeded.append(r)
+            continue
         if tag == "neg":
             if "FinalAgg" not in r.violated:
                 raise Inconclusive("negative control: Rare_MC did not find the order-dependent interleaving")
+            continue
+        if isinstance(tag, tuple) and tag[0] == "merged":
+            got = set(r.violated)
+            errs = [e for e in r.errors if "is violated" not in e and "behavior up to this point" not in e]
+            if got != set(tag[2]) or errs or not r.finished:
+                raise Inconclusive("%s: expected exactly the negative controls %s to be refuted, TLC reports violated=%s errors=%s\n%s" % (
+                    tag[1], sorted(tag[2]), sorted(got), errs[:3], r.out[-2000:]))
             continue
         if tag == "gen":
             gen = r
@@ -97,6 +255,7 @@ def check(run):
                     ("Open", "CloseFile", "Cut", "Take", "Process", "Aggregate")]
             if zero:
                 raise Inconclusive("vacuous model: actions never taken: %s" % zero)
+    stage("b3-done")
     if gen.violated or gen.errors:
         raise Inconclusive("generator failed: %s" % gen.out[-2000:])
     descs = vfj_lines(gen.out)
@@ -104,12 +263,12 @@ def check(run):
         raise Inconclusive("generator produced only %d descriptors" % len(descs))
     # ------------------------------------------------------------------ B1 + B2: real binary
     rnd = random.Random(run.seed)
-    nsmall = 150 if quick else 2500
+    nsmall = 200 if quick else 4000
     if len(descs) > nsmall:
         # every command descriptor stays represented: stratified seeded sample
         by = {}
         for d in descs:
-            by.setdefault((d["cmd"], tuple(d["ext"]), d["ig"], tuple(d["acc"]), d["grp"]), []).append(d)
+            by.setdefault((d["cmd"], d["mt"], tuple(d["ext"]), tuple(d["delim"]), d["ig"], tuple(d["acc"]), d["grp"]), []).append(d)
         per = max(1, nsmall // len(by))
         pickd = []
         for k in sorted(by):
@@ -121,54 +280,13 @@ def check(run):
             pickd += rnd.sample(rest, min(max(1, per - 4), len(rest)))
         descs = pickd
     dpath = os.path.join(run.scratch, "c03-desc.ndjson")
-    big = os.path.join(run.scratch, "c03-big.ndjson")
-    run.drv(["gen", "-out", big, "-geom", 3 if quick else 24, "-n", 11 if quick else 44, "-min", 800 if quick else 2000,
-             "-max", 5000 if quick else 100000])
     with open(dpath, "w") as f:
         for d in descs:
             f.write(json.dumps(d, separators=(",", ":")) + "\n")
-        f.write(open(big).read())
-    tr = os.path.join(run.scratch, "c03-trace.ndjson")
-    res_path = os.path.join(run.scratch, "c03-result.json")
-    run.drv(["run", "-rare", rare, "-in", dpath, "-out", tr, "-res", res_path,
-             "-variants", 2 if quick else 4, "-variants-big", 4 if quick else 8,
-             "-variants-geom", 6 if quick else 10, "-par", 6], timeout=3000)
-    res = json.load(open(res_path))
-    run.cov["traces_validated_against_impl"] += res["runs"]
-    run.cov["evaluations"] += res["runs"] + res["b1_compared"]
-    run.cov["b1_compared"] = res["b1_compared"]
-    run.cov["cli_runs"] = res["runs"]
-    run.cov["corpora"] = res["groups"]
-    for s in res["samples"]:
-        run.sample({"cli_run": s})
-    for m in res["b1_mismatches"]:
-        cls = m["why"].split(":")[0]
-        run.violation("b1:%s:%s" % (m["cmd"], cls),
-                      "rare %s: %s (TLC-enumerated corpus %d)" % (" ".join(m["argv"][:14]), m["why"], m["t"]), m)
-    vres, r = validate_traces(run, "Rare_Trace", tr, xmx="8g", timeout=3000)
-    run.cov["b2_events"] = vres["consumed"]
-    nontrivial = 0
-    lines = open(tr).read().splitlines()
-    for ln in lines:
-        if ln.startswith('{"event":"run"') or '"event":"run"' in ln[:40]:
-            nontrivial += 1
-    run.cov["distinct_nontrivial"] += res["groups"]
-    if vres["consumed"] != len(lines):
-        raise Inconclusive("trace not consumed: %d of %d" % (vres["consumed"], len(lines)))
-    for bad in vres["bad"]:
-        ev = json.loads(lines[bad["l"] - 1])
-        why = bad["why"]
-        if why in ("spec-selfcheck", "harness-layout"):
-            raise Inconclusive("trace %d line %d: %s" % (bad["t"], bad["l"], why))
-        sl = trace_slice(tr, bad["t"]).splitlines()
-        reset = json.loads(sl[0])
-        # keep the replay small: the reset line + the rejected run
-        path = run.save_replay("trace-%d-%d.ndjson" % (bad["t"], bad["l"]), sl[0][:200000] + "\n" + lines[bad["l"] - 1] + "\n")
-        out = bytes(ev["stdout"][:400]).decode("utf8", "replace")
-        run.violation("b2:%s:%s" % (reset["cmd"], why),
-                      "rare %s (GOMAXPROCS=%s) exit=%s msg=%s is not a behaviour of Rare.tla: %s; stdout starts %r" % (
-                          " ".join(a if len(a) < 60 else a[:57] + "..." for a in ev["argv"]), ev.get("gomaxprocs"),
-                          ev["exit"], ev["msg"], why, out[:300]), path)
+    fam_small = family("small", dpath)
+    stage("small-done")
+    for fam in (fam_small, fam_seeded[0]):
+        report(fam)
     run.cov["rule"] = ("B3: every interleaving of Rare_MC within the listed constants; B1/B2: one corpus descriptor = one "
                        "(line sequence, command descriptor) pair, each executed under several layouts/tunings in csv and "
                        "snapshot mode; distinct_nontrivial counts corpus descriptors")
